@@ -43,7 +43,7 @@ type host struct {
 	idx      int
 	id       gpbft.ActorID
 	now      time.Time
-	alarm    time.Time // zero = none
+	alarm    time.Time             // zero = none
 	sent     map[gpbft.Instant]int // own messages by instant -> msg id
 	inputs   map[uint64]*gpbft.ECChain
 	bases    map[uint64]*gpbft.TipSet
@@ -135,29 +135,33 @@ func (h *host) ReceiveDecision(_ context.Context, d *gpbft.Justification) (time.
 	return h.now, nil
 }
 
-func (h *host) Verify(pk gpbft.PubKey, msg, sig []byte) error { return h.sys.backend.Verify(pk, msg, sig) }
+func (h *host) Verify(pk gpbft.PubKey, msg, sig []byte) error {
+	return h.sys.backend.Verify(pk, msg, sig)
+}
 func (h *host) Aggregate(pks []gpbft.PubKey) (gpbft.Aggregate, error) {
 	return h.sys.backend.Aggregate(pks)
 }
 
 // System is one execution: real participants plus the harness network / clocks / adversary.
 type System struct {
-	w       *world
-	backend *signing.FakeBackend
-	mode    *Mode
-	hosts   []*host // indexed by participant index; nil for byz / silent
-	parts   []*gpbft.Participant
-	obs     *gpbft.Participant // never-started observer used as "fresh peer" validator
-	obsHost *host
-	msgs    []*msgRec
-	queue   []delivery
-	held    []delivery
-	dupUsed map[delivery]bool
-	mon     *monitors
-	trace   []string
-	events  int
+	w            *world
+	backend      *signing.FakeBackend
+	mode         *Mode
+	hosts        []*host // indexed by participant index; nil for byz / silent
+	parts        []*gpbft.Participant
+	obs          *gpbft.Participant // never-started observer used as "fresh peer" validator
+	obsHost      *host
+	msgs         []*msgRec
+	queue        []delivery
+	held         []delivery
+	parked       []delivery // withheld by the schedule policy (lagging participant / partition)
+	released     bool
+	dupUsed      map[delivery]bool
+	mon          *monitors
+	trace        []string
+	events       int
 	rebroadcasts int
-	byzSent int
+	byzSent      int
 	// liveness accounting
 	stabRound uint64 // max honest round at the last deviation / release
 	ended     string
@@ -180,14 +184,110 @@ func msgStr(m *gpbft.GMessage) string {
 
 // enqueueAll schedules one delivery per honest participant, the sender first.
 func (s *System) enqueueAll(msg int, sender int) {
+	pol := s.mode.Policy
 	if sender >= 0 && s.hosts[sender] != nil {
 		s.queue = append(s.queue, delivery{msg, sender})
+		if pol.Kind == "partition" && pol.Echo && s.w.sc.Byz >= 0 && !s.released {
+			// the Byzantine participant echoes the vote (same payload and justification, its own signature) to the sender only
+			if em := s.echoOf(s.msgs[msg].msg); em != nil {
+				rec := s.addMsg(s.w.sc.Byz, em, true)
+				s.byzSent++
+				s.queue = append(s.queue, delivery{rec.id, sender})
+			}
+		}
 	}
 	for _, i := range s.w.sc.Honest() {
-		if i != sender {
+		if i == sender {
+			continue
+		}
+		if s.parks(sender, i) {
+			s.parked = append(s.parked, delivery{msg, i})
+		} else if s.slowLink(sender, i, s.msgs[msg].msg.Vote.Phase) {
+			s.held = append(s.held, delivery{msg, i}) // arrives after the next timer event
+		} else {
 			s.queue = append(s.queue, delivery{msg, i})
 		}
 	}
+}
+
+// parks reports whether the policy withholds a message from sender to recipient right now.
+func (s *System) parks(from, to int) bool {
+	if s.released {
+		return false
+	}
+	pol := s.mode.Policy
+	switch pol.Kind {
+	case "lag":
+		return to == pol.Lagger && from != pol.Lagger
+	case "partition":
+		g := func(x int) int {
+			for gi, grp := range pol.Groups {
+				for _, m := range grp {
+					if m == x {
+						return gi
+					}
+				}
+			}
+			return -1
+		}
+		return g(from) != g(to)
+	}
+	return false
+}
+
+func (s *System) slowLink(from, to int, ph gpbft.Phase) bool {
+	if s.mode.Policy.Kind != "slow" {
+		return false
+	}
+	for _, l := range s.mode.Policy.Slow {
+		if l.From == from && l.To == to && l.Phase == ph {
+			return true
+		}
+	}
+	return false
+}
+
+// policyRelease reports whether the withheld messages are due to be released.
+func (s *System) policyRelease() bool {
+	if s.released || len(s.parked) == 0 {
+		return false
+	}
+	pol := s.mode.Policy
+	switch pol.Kind {
+	case "lag":
+		othersDone := true
+		for _, i := range s.w.sc.Honest() {
+			if i == pol.Lagger {
+				continue
+			}
+			if !s.hosts[i].finished {
+				othersDone = false
+				if pr := s.parts[i].Progress(); pr.Round >= pol.FlushRound && pol.FlushRound > 0 {
+					return true
+				}
+			}
+		}
+		return othersDone
+	case "partition":
+		return pol.HealAfter > 0 && s.events >= pol.HealAfter
+	}
+	return false
+}
+
+func (s *System) echoOf(m *gpbft.GMessage) *gpbft.GMessage {
+	bpk := s.w.pubkeys[actor(s.w.sc.Byz)]
+	sig, err := s.backend.Sign(ctx, bpk, m.Vote.MarshalForSigning(networkName))
+	if err != nil {
+		return nil
+	}
+	e := &gpbft.GMessage{Sender: actor(s.w.sc.Byz), Vote: m.Vote, Signature: sig, Justification: m.Justification}
+	if m.Vote.Phase == gpbft.CONVERGE_PHASE {
+		beacon := []byte(s.w.sc.Beacon + strconv.FormatUint(m.Vote.Instance, 10))
+		if e.Ticket, err = s.backend.Sign(ctx, bpk, gpbft.VerifVRFInput(beacon, m.Vote.Instance, m.Vote.Round, networkName)); err != nil {
+			return nil
+		}
+	}
+	return e
 }
 
 func newSystem(w *world, mode *Mode) *System {
@@ -232,15 +332,16 @@ func newSystem(w *world, mode *Mode) *System {
 // ---- actions ---------------------------------------------------------------------------------------
 
 // An action label is the stable textual identity of one transition:
-//   D<m>><p>  deliver message m to p            (default when it is the queue head)
-//   T<p>      time flows for everybody until p's alarm, which fires (default when the queue is empty)
-//   L<m>><p>  delay: move the queue head to the back
-//   H<m>><p>  hold: keep the queue head back until after the next timer event
-//   X<m>><p>  drop the queue head (safety modes only)
-//   U<m>><p>  duplicate: deliver the queue head and keep a second copy at the back
-//   J<m>><p>  jump: deliver a non-head pending message out of order
-//   E<p>      early timer: only p's clock advances to its alarm, which fires
-//   B<spec>><p> deliver the Byzantine message described by spec to p
+//
+//	D<m>><p>  deliver message m to p            (default when it is the queue head)
+//	T<p>      time flows for everybody until p's alarm, which fires (default when the queue is empty)
+//	L<m>><p>  delay: move the queue head to the back
+//	H<m>><p>  hold: keep the queue head back until after the next timer event
+//	X<m>><p>  drop the queue head (safety modes only)
+//	U<m>><p>  duplicate: deliver the queue head and keep a second copy at the back
+//	J<m>><p>  jump: deliver a non-head pending message out of order
+//	E<p>      early timer: only p's clock advances to its alarm, which fires
+//	B<spec>><p> deliver the Byzantine message described by spec to p
 type action struct {
 	kind byte
 	msg  int
@@ -250,6 +351,8 @@ type action struct {
 
 func (a action) String() string {
 	switch a.kind {
+	case 'P':
+		return "P0"
 	case 'T', 'E':
 		return fmt.Sprintf("%c%d", a.kind, a.to)
 	case 'B':
@@ -266,6 +369,8 @@ func parseAction(s string) (action, error) {
 	a := action{kind: s[0]}
 	rest := s[1:]
 	switch a.kind {
+	case 'P':
+		return a, nil
 	case 'T', 'E':
 		n, err := strconv.Atoi(rest)
 		a.to = n
@@ -315,6 +420,9 @@ func (s *System) nextTimer() (int, time.Duration, bool) {
 
 // defaultAction is the synchronous, loss-free, Byzantine-silent schedule.
 func (s *System) defaultAction() (action, bool) {
+	if s.policyRelease() {
+		return action{kind: 'P'}, true
+	}
 	if len(s.queue) > 0 {
 		d := s.queue[0]
 		return action{kind: 'D', msg: d.msg, to: d.to}, true
@@ -402,6 +510,20 @@ func (s *System) apply(a action) error {
 	s.trace = append(s.trace, a.String())
 	d := delivery{a.msg, a.to}
 	switch a.kind {
+	case 'P':
+		if !s.policyRelease() {
+			return fmt.Errorf("P not enabled")
+		}
+		s.released = true
+		if s.mode.Policy.LIFO {
+			for i := len(s.parked) - 1; i >= 0; i-- {
+				s.queue = append(s.queue, s.parked[i])
+			}
+		} else {
+			s.queue = append(s.queue, s.parked...)
+		}
+		s.parked = nil
+		s.noteStabilisation()
 	case 'D', 'J':
 		if a.kind == 'D' && (len(s.queue) == 0 || s.queue[0] != d) {
 			return fmt.Errorf("D%v not at queue head", d)
@@ -606,9 +728,26 @@ func (s *System) key() string {
 	if s.mode.Liveness {
 		fmt.Fprintf(&b, "\nL%d,%v", s.stabRound, s.byzSent > 0)
 	}
+	if s.mode.Policy.Kind != "" {
+		ps := make([]string, 0, len(s.parked))
+		for _, d := range s.parked {
+			ps = append(ps, fmt.Sprintf("%s>%d", s.msgKey(d.msg), d.to))
+		}
+		if !s.mode.Policy.LIFO {
+			sort.Strings(ps)
+		}
+		fmt.Fprintf(&b, "\nP%v,%d:%s", s.released, boolToInt(s.mode.Policy.Kind == "partition" && !s.released)*s.events, strings.Join(ps, " "))
+	}
 	b.WriteString("\n")
 	s.mon.key(&b)
 	return b.String()
+}
+
+func boolToInt(b bool) int {
+	if b {
+		return 1
+	}
+	return 0
 }
 
 // msgKey identifies a message by content class, not by creation index, so that executions which create
